@@ -28,7 +28,10 @@ type Case struct {
 	// HistoryBatch: the benign history's attestations travel in batch calls (next to an ordinary
 	// account's attestation) instead of single calls.
 	HistoryBatch bool `json:"benign_history_in_batches,omitempty"`
-	Routing  [][]int  `json:"routing"` // per participant: ordered duties (0 = A, 1 = B), repeats allowed
+	// StaleOther: the ordinary account's attestation that accompanies a duty in a batch call is one
+	// the instance refuses (a different vote for a target it signed at the start), instead of a fresh one.
+	StaleOther bool    `json:"batch_companion_refused,omitempty"`
+	Routing    [][]int `json:"routing"` // per participant: ordered duties (0 = A, 1 = B), repeats allowed
 	// Batch[i][k] says whether participant i's k-th request travels in a batch call (next to a benign
 	// attestation of an ordinary account of that instance) instead of a single call.
 	Batch [][]bool `json:"batch,omitempty"`
@@ -117,6 +120,15 @@ func run(c *Case) (*outcome, *vkit.Violation, error) {
 	target := func(p part) vkit.Target {
 		return vkit.Target{Account: account, PubKey: p.share, ByKey: c.ByKey}
 	}
+	if c.StaleOther {
+		for _, p := range parts {
+			other := p.node.World.ByPath[vkit.NWallet+"/Account 0"]
+			a := &vkit.Att{Slot: 1, BlockRoot: root(7, 1), SrcEpoch: 1, SrcRoot: root(0, 2), TgtEpoch: 2, TgtRoot: root(0, 3), Domain: attDomain()}
+			if r := p.node.Stack.Attest(client, "", vkit.TargetOf(other, false), false, a); !r.OK() {
+				return o, nil, fmt.Errorf("companion account's first attestation refused by %d: %s", p.node.ID, r.State)
+			}
+		}
+	}
 	var benign atomic.Uint64
 	benign.Store(1000)
 	// benign common history on every participant
@@ -154,6 +166,9 @@ func run(c *Case) (*outcome, *vkit.Violation, error) {
 				other := p.node.World.ByPath[vkit.NWallet+"/Account 0"]
 				e := benign.Add(2)
 				b := &vkit.Att{Slot: 1, BlockRoot: root(e, 1), SrcEpoch: e, SrcRoot: root(0, 2), TgtEpoch: e + 1, TgtRoot: root(0, 3), Domain: attDomain()}
+				if c.StaleOther {
+					b.SrcEpoch, b.TgtEpoch = 1, 2 // a second, different vote for target 2: refused
+				}
 				first := e%4 == 0
 				ts := []vkit.Target{target(p), vkit.TargetOf(other, false)}
 				as := []*vkit.Att{&a, b}
@@ -305,7 +320,7 @@ func TestC14(t *testing.T) {
 		nInst := rapid.IntRange(2, 7).Draw(rt, "instances")
 		ids := rapid.Permutation([]uint64{1, 2, 3, 4, 5, 1 << 63, 1<<64 - 1, 70000, 9}).Draw(rt, "ids")[:nInst]
 		c := &Case{IDs: ids, Conflict: rapid.SampledFrom([]string{"double-vote", "a-surrounds-b", "b-surrounds-a", "two-blocks"}).Draw(rt, "conflict"),
-			History: rapid.IntRange(0, 2).Draw(rt, "history"), HistoryBatch: rapid.Bool().Draw(rt, "history_batch"), Concurrent: rapid.Bool().Draw(rt, "concurrent"), ByKey: rapid.Bool().Draw(rt, "bykey"), ViaGRPC: rapid.Bool().Draw(rt, "grpc")}
+			History: rapid.IntRange(0, 2).Draw(rt, "history"), HistoryBatch: rapid.Bool().Draw(rt, "history_batch"), StaleOther: rapid.IntRange(0, 2).Draw(rt, "stale_other") == 0, Concurrent: rapid.Bool().Draw(rt, "concurrent"), ByKey: rapid.Bool().Draw(rt, "bykey"), ViaGRPC: rapid.Bool().Draw(rt, "grpc")}
 		if rapid.IntRange(0, 9).Draw(rt, "square") < 7 {
 			c.N = uint32(nInst)
 			if rapid.Bool().Draw(rt, "fewer") {
@@ -367,6 +382,9 @@ func TestC14(t *testing.T) {
 			if o.restarts > 0 {
 				vkit.S.Class("instance-restarted-between-deliveries")
 			}
+			if c.StaleOther && mixedOrBatch(c) {
+				vkit.S.Class("duty-delivered-in-a-batch-next-to-a-refused-entry")
+			}
 			if c.History > 0 && c.HistoryBatch {
 				vkit.S.Class("earlier-history-signed-through-batch-calls")
 			}
@@ -395,6 +413,18 @@ func TestC14(t *testing.T) {
 		vkit.S.Sample(map[string]any{"case": c, "offered": o.offered, "signed": o.signed}, nt && c.N >= 3)
 		vkit.Report(rt, "C14", "TestC14", c, v)
 	})
+}
+
+func mixedOrBatch(c *Case) bool {
+	for i := range c.Batch {
+		for _, b := range c.Batch[i] {
+			if b {
+				return true
+			}
+		}
+	}
+
+	return false
 }
 
 func ds14att(c *Case) bool { return c.Conflict != "two-blocks" }
